@@ -5,7 +5,7 @@ from . import common
 from .common import viol
 
 ID = "C12"
-RUNS = {"quick": 1200, "thorough": 40000}
+RUNS = {"quick": 1200, "thorough": 16000}
 REAL = common.REAL
 SIMULATED = common.SIMULATED
 ASSUMPTIONS = [
@@ -44,7 +44,7 @@ def _gen_marathon(rng):
         g = pools.tiny_game(rng) if i < 2 else (pools.nosol_game(rng) if i == 2 else pools.stopping_game(rng, 4, 6))
         pool.append({"name": "m%d" % i, "desc": enc(g), "tag": "marathon"})
     opl = [{"op": "batch", "games": rng.sample(range(4), rng.randint(1, 3))} for _ in range(rng.randint(60, 150))]
-    return {"cfg": {"klass": "marathon"}, "pool": pool, "ops": opl}
+    return {"cfg": {"klass": "marathon", "fd_spare": 48}, "pool": pool, "ops": opl}
 
 
 def gen(rng, tier, ctx):
